@@ -710,6 +710,10 @@ class HtpasswdFile(_CommonFile):
             to prevent ambiguity with the dictionary method.
             The old alias was removed in Passlib 1.8.
         """
+        if isinstance(password, str):
+            # NOTE: same assumption as check_password(): the password is hashed
+            # in the file's encoding, so the two agree on non-ascii passwords.
+            password = password.encode(self.encoding)
         hash = self.context.hash(password)
         return self.set_hash(user, hash)
 
